@@ -358,6 +358,9 @@ def enumerate_obligations(unit, run):
         if f['has_body'] and not f['trusted']:
             obs.append({'id': '%s/%s/safety' % (run.name, fid), 'props': f['props'], 'kind': 'safety', 'fn': fid,
                         'what': 'every arithmetic, index, unwrap and callee-precondition site in the body'})
+    for rel_, fn_ in sorted(getattr(unit, 'guard_seen', ()) or ()):
+        obs.append({'id': '%s/%s/guard/no_refcell_guard_created_in_a_scrutinee_is_alive_across_an_await' % (run.name, fn_), 'props': ['C16'], 'kind': 'guard', 'fn': fn_,
+                    'what': 'checked on the text of %s (the cells themselves are erased from the verified text): no match / if let / while let creates a RefCell guard in its scrutinee and awaits in its body' % rel_})
     for lm in unit.lemmas:
         obs.append({'id': '%s/tmpl::%s/lemma' % (run.name, lm), 'props': lemma_props(unit, lm), 'kind': 'lemma', 'fn': 'tmpl::' + lm})
     run.obligations = obs
@@ -559,6 +562,12 @@ def run_unit(name, tier, want_probe=True):
     run.unit = unit
     run.data = data
     enumerate_obligations(unit, run)
+    for gh in getattr(unit, 'guard_hazards', []) or []:
+        loc_ = '%s:%d' % (gh['file'], gh['line'])
+        run.failures.append({'id': '%s/%s/guard/no_refcell_guard_created_in_a_scrutinee_is_alive_across_an_await' % (name, gh['fn']),
+                             'props': ['C16'], 'kind': 'guard', 'message': 'RefCell guard alive across .await', 'fn': gh['fn'], 'aid': None,
+                             'rendered': 'the scrutinee `%s` creates a RefCell guard that lives to the end of the statement, whose body awaits: the cell is still borrowed while other calls run' % gh['scrutinee'],
+                             'repo': loc_, 'site': site_text(loc_), 'repo_fn': gh['fn'], 'repo_file': gh['file']})
     from concurrent.futures import ThreadPoolExecutor
     pfut = None
     pex = None
